@@ -176,6 +176,17 @@ impl Format {
         let s = s_in.trim();
 
         for (idx, char) in s.chars().enumerate() {
+            // The second separator of the previous token is never part of a token which is not numeric
+            // (e.g. a month name), but only numeric tokens notice it below.
+            if idx == prev_idx
+                && cur_item_idx > 0
+                && !cur_token.is_numeric()
+                && prev_item.second_sep_char_is(char)
+            {
+                prev_idx += 1;
+                continue;
+            }
+
             // We should parse if:
             // 1. we're at the end of the string
             // 2. Or we've hit a non-numeric char and the token is fully numeric
